@@ -27,10 +27,25 @@ fn note(l: &mut Local, out: &Out<()>, stage: &str, group: &str, case: &dyn Fn() 
 }
 
 fn sels_small() -> Vec<Map<String, Value>> {
-    [json!({}), json!({"x": true}), json!({"a": true, "arr": [true, {"k": true}], "p": {"q": true}}), json!({"a": {"b": true}, "arr": [[true]], "h": [true, {"w": true}]})]
-        .iter()
-        .map(|v| v.as_object().unwrap().clone())
-        .collect()
+    // single-key selections (a multi-key selection stops at its first failing key): every member name the
+    // signed-structure bases use x every selector shape, plus a few combined ones
+    let shapes = [
+        json!(true), json!(false), Value::Null, json!(0), json!("s"), json!([]), json!([true]), json!([false]), json!([null]), json!([[true]]), json!([[false]]), json!([{}]),
+        json!([{"k": true}]), json!([{"k": true, "h": true}]), json!([true, true, true]), json!([false, [true]]), json!([null, null, [null]]), json!({}), json!({"b": true}), json!({"b": true, "e": {}}),
+        json!({"k": true}), json!({"q": true}), json!({"q": false, "r": true}), json!({"w": true}), json!([true, {"w": true}]), json!([false, {"w": false}]), json!([[true, false], true]),
+    ];
+    let mut out = vec![Map::new()];
+    for key in ["a", "arr", "p", "h", "x", "d", "o", "zz"] {
+        for sh in &shapes {
+            let mut m = Map::new();
+            m.insert(key.to_string(), sh.clone());
+            out.push(m);
+        }
+    }
+    for v in [json!({"a": true, "arr": [true, {"k": true}], "p": {"q": true}}), json!({"arr": [[true]], "h": [true, {"w": true}]}), json!({"x": true, "y": true, "d": true, "g": true, "v": true})] {
+        out.push(v.as_object().unwrap().clone());
+    }
+    out
 }
 
 /// verifier (without and with key-binding expectation) + holder (constructor, then a few selections)
@@ -44,8 +59,10 @@ pub fn op_string(s: &str, fmt: Fmt, group: &str, l: &mut Local) {
     match drive::holder_new(s, fmt) {
         Out::Ok(mut h) => {
             l.outcome("ok");
-            for sel in sels_small() {
-                let o = drive::present(&mut h, &sel, &KbArgs::none()).map(|_| ());
+            let sels = sels_small();
+            let n = if group.starts_with("c08") || group.starts_with("subst") || group.starts_with("deep") || group.starts_with("garbage") { sels.len() } else { 12 };
+            for sel in sels.iter().step_by((sels.len() / n).max(1)) {
+                let o = drive::present(&mut h, sel, &KbArgs::none()).map(|_| ());
                 note(l, &o, "create_presentation", group, &case);
             }
             let kb = KbArgs { nonce: Some("n".into()), aud: Some("a".into()), key: Hk::Es.enc(0), alg: Some("ES256".into()) };
